@@ -453,7 +453,7 @@ def fault_scripts(seed, n, tid0, kinds=None):
     kinds = kinds or KINDS
     res = []
     DESTROY = ["clear", "delete", "delete_batch", "delete_all", "edelete_maintain", "insert_dead", "or_insert_occ",
-               "lazy_none", "drain_partial", "remove", "overwrite"]
+               "lazy_remove", "drain_partial", "remove", "overwrite", "lazy_overwrite"]
     for i in range(n):
         rng = random.Random((seed * 48271 + i * 101) & 0xFFFFFFFF)
         S = rng.choice([1, 2, 2, 3])
@@ -500,6 +500,15 @@ def fault_scripts(seed, n, tid0, kinds=None):
                 inner = {"o": "sop", "path": "insert", "s": s, "h": rng.choice(dead)}
             elif d == "or_insert_occ":
                 inner = {"o": "sop", "path": rng.choice(["or_insert", "or_insert_with"]), "s": s, "h": rng.choice(sorted(live)) if live else 0}
+            elif d in ("lazy_remove", "lazy_overwrite"):
+                # the destructor panics inside a queued lazy action (nothing else is pending at that maintain)
+                ops.append({"o": "maintain"})
+                h = rng.choice(sorted(live)) if live else 0
+                ops.append({"o": "lremove" if d == "lazy_remove" else "linsert", "s": s, "h": h})
+                if rng.random() < 0.5:
+                    ops.append({"o": "linsert", "s": rng.randrange(S), "h": rng.choice(sorted(live)) if live else 0})
+                inner = {"o": "maintain"}
+                k = 1
             elif d == "drain_partial":
                 inner = {"o": "wop", "k": "drain", "s": s, "n": rng.choice([1, 2, -1])}
             elif d == "remove":
